@@ -16,12 +16,30 @@ typedef unsigned char uchar;
 #endif
 #define NN ((1 << TD) - 1)
 #define VSZ 2
+#ifdef QV_C13
+#define QV_LOCK_HOOKS
+#endif
 #include "qv_pthread.h"
 
 int gh_cmp_calls;       /* ghost: number of comparator invocations (C02 cost bound) */
 #include "src/utilities/qstring.c"
 #include "src/containers/qtreetbl.c"
 
+#ifdef QV_C13
+/* C13 overlay (see harness/qvector/vector.c): root/num/tid are poison while the table lock is not held */
+static qtreetbl_t *c13_t; static qtreetbl_obj_t *c13_root; static size_t c13_num; static uint8_t c13_tid;
+static void c13_reveal(void) { c13_t->root = c13_root; c13_t->num = c13_num; c13_t->tid = c13_tid; }
+static void c13_hide(void) { c13_root = c13_t->root; c13_num = c13_t->num; c13_tid = c13_t->tid; c13_t->root = NULL; c13_t->num = nondet_size_t(); c13_t->tid = nondet_uint8_t(); }
+void qv_on_acquire(void) { if (c13_t) c13_reveal(); }
+void qv_on_release(void) { if (c13_t) c13_hide(); }
+#define C13_END() do { c13_t = NULL; } while (0)      /* overlay off: the harness releases the container */
+#define C13_BEGIN(t) do { c13_t = (t); gh_lock_outer = 0; c13_hide(); } while (0)
+#define C13_SETTLE() do { if (c13_t) c13_reveal(); } while (0)
+#else
+#define C13_BEGIN(t) do { } while (0)
+#define C13_SETTLE() do { } while (0)
+#define C13_END() do { } while (0)
+#endif
 /* user-supplied ordering: rank = first key byte */
 int gh_cmp(const void *n1, size_t s1, const void *n2, size_t s2) {
     gh_cmp_calls++;
@@ -164,11 +182,18 @@ static struct tstate mk(bool valid_only) {
     if (valid_only) for (int i = 0; i < NN; i++) if (s.p.present[i]) QV_ASSUME(s.p.node[i]->tid <= ttid);
     QV_IN(int, depth0);
     QV_ASSUME(depth0 >= 0 && depth0 <= 2);
-    gh_lock_depth = depth0; gh_lock_acquired = 0; gh_cmp_calls = 0;
+    gh_lock_depth = depth0; gh_lock_acquired = 0; gh_lock_outer = 0; gh_cmp_calls = 0;
+#ifdef QV_C13
+    QV_ASSUME(ts && depth0 == 0);
+#endif
     s.t = t; s.depth0 = depth0;
     return s;
 }
+#ifdef QV_C13
+#define LOCK_BALANCED(s) do { C13_SETTLE(); QV_ASSERT(gh_lock_depth == (s).depth0 && gh_lock_outer <= 1, "C13: all shared accesses of the operation lie in ONE critical section, which is released on return"); gh_lock_outer = 0; } while (0)
+#else
 #define LOCK_BALANCED(s) QV_ASSERT(gh_lock_depth == (s).depth0, "C14: lock depth on return equals depth on entry")
+#endif
 
 static bool post_stamps_ok(qtreetbl_obj_t *n, uchar ttid, int depth) {
     if (n == NULL || depth == 0) return true;
@@ -211,6 +236,7 @@ void h_put(void) {
     name[0] = k; QV_IN_BYTES(val, VSZ);
     uchar v0 = val[0], v1 = val[1];
     bool had = pre_find(&s.p, k) >= 0;
+    C13_BEGIN(t);
     errno = 0;
     bool r = qtreetbl_putobj(t, name, 1, val, dsz);
     LOCK_BALANCED(s);
@@ -230,9 +256,10 @@ void h_put(void) {
 #endif
     }
     free(name); free(val);
+    C13_END();
     QV_ASSERT(!qtreetbl_putobj(t, NULL, 1, &v0, 1) && !qtreetbl_putobj(t, &v0, 0, &v0, 1), "C01: NULL / empty key is refused");
-    LOCK_BALANCED(s);
-    qtreetbl_free(t);           /* leak obligation */
+    QV_ASSERT(gh_lock_depth == s.depth0, "C14: refused calls leave the lock depth unchanged");
+    C13_END(); qtreetbl_free(t);           /* leak obligation */
     QV_END();
 }
 
@@ -247,6 +274,7 @@ void h_remove(void) {
 #endif
     QV_IN(uchar, P);
     bool had = pre_find(&s.p, k) >= 0;
+    C13_BEGIN(t);
     errno = 0;
     bool r = qtreetbl_removeobj(t, &k, 1);
     LOCK_BALANCED(s);
@@ -257,7 +285,7 @@ void h_remove(void) {
     if (P != k) same_as_before(&s, P);
     if (had) QV_REACH("remove present"); else QV_REACH("remove absent");
 #ifndef NOFREE
-    qtreetbl_free(t);           /* leak obligation: node, key and value of the removed entry were released */
+    C13_END(); qtreetbl_free(t);           /* leak obligation: node, key and value of the removed entry were released */
 #endif
     QV_END();
 }
@@ -271,6 +299,7 @@ void h_get(void) {
     size_t sz = 99;
     errno = 0;
     gh_cmp_calls = 0;
+    C13_BEGIN(t);
     uchar *d = qtreetbl_getobj(t, &P, 1, wantsize ? &sz : NULL, newmem);
     int calls = gh_cmp_calls;
     LOCK_BALANCED(s);
@@ -287,9 +316,12 @@ void h_get(void) {
         if (newmem) { QV_ASSERT(d != (uchar *)s.p.node[i]->data, "C12: copy is independent of the stored value"); free(d); }
         QV_REACH("get present");
     }
+#ifndef QV_C13
     QV_ASSERT(qtreetbl_size(t) == s.n, "C01: size reports the key count");
+#endif
     /* min / max */
     size_t ns = 77;
+    C13_BEGIN(t);
     uchar *mn = qtreetbl_find_min(t, &ns);
     LOCK_BALANCED(s);
     if (s.n == 0) QV_ASSERT(mn == NULL && errno == ENOENT, "C01: find_min on an empty table reports ENOENT");
@@ -299,6 +331,7 @@ void h_get(void) {
         QV_ASSERT(mn != (uchar *)s.p.node[pre_find(&s.p, mn[0])]->name, "C12: find_min returns a copy");
         free(mn);
     }
+    C13_BEGIN(t);
     uchar *mx = qtreetbl_find_max(t, &ns);
     LOCK_BALANCED(s);
     if (s.n == 0) QV_ASSERT(mx == NULL, "C01: find_max on an empty table reports not-found");
@@ -308,10 +341,11 @@ void h_get(void) {
         free(mx);
     }
     INV_tree(&s, s.n);
+    C13_BEGIN(t);
     qtreetbl_clear(t);
     LOCK_BALANCED(s);
-    QV_ASSERT(t->root == NULL && t->num == 0 && qtreetbl_size(t) == 0, "C01: clear empties the table");
-    qtreetbl_free(t);
+    QV_ASSERT(t->root == NULL && t->num == 0, "C01: clear empties the table");
+    C13_END(); qtreetbl_free(t);
     QV_END();
 }
 
@@ -367,7 +401,7 @@ void h_walk(void) {
     QV_IN(uchar, P); same_as_before(&s, P);
     QV_ASSERT(!qtreetbl_getnext(t, NULL, newmem), "C03: NULL cursor is refused");
 done:
-    qtreetbl_free(t);
+    C13_END(); qtreetbl_free(t);
     QV_END();
 }
 
@@ -412,7 +446,7 @@ void h_nearest(void) {
     o = qtreetbl_find_nearest(t, NULL, 1, false);
     QV_ASSERT(o.name == NULL && errno == EINVAL, "C04: NULL key is refused");
     LOCK_BALANCED(s);
-    qtreetbl_free(t);
+    C13_END(); qtreetbl_free(t);
     QV_END();
 }
 
@@ -437,6 +471,6 @@ void h_checker(void) {
     QV_ASSERT((c == 0) == ok, "C02: qtreetbl_check() accepts exactly the trees that satisfy the red-black and left-leaning rules");
     if (ok) QV_REACH("checker accepts"); else QV_REACH("checker rejects");
     QV_ASSERT(qtreetbl_check(NULL) == 0, "C02: checker tolerates NULL");
-    qtreetbl_free(s.t);
+    C13_END(); qtreetbl_free(s.t);
     QV_END();
 }
